@@ -7,6 +7,7 @@ import (
 	"encoding/hex"
 	"fmt"
 	"io"
+	"os"
 	"sort"
 	"strings"
 	"sync"
@@ -71,8 +72,20 @@ type SortedEnt struct {
 type Recorder struct {
 	mu      sync.Mutex
 	writers map[io.Writer]struct{}
-	F       []int64 // per Flush: bytes emitted since the previous event of that stream
+	F       []int64 // per Flush / Mark: bytes emitted since the previous event of that stream
 	C       []int64 // per Close: bytes emitted since the previous event of that stream
+	cur     *Stream // the open stream (single-writer runs)
+}
+
+// Mark is called right before an AppendTar call: appendTar reads w.cw.n there, possibly in the middle
+// of an open stream; what the compressor pushed on its own since the last event is an oracle value.
+func (r *Recorder) Mark() {
+	r.mu.Lock()
+	defer r.mu.Unlock()
+	if r.cur != nil {
+		r.F = append(r.F, r.cur.n)
+		r.cur.n = 0
+	}
 }
 
 func NewRecorder() *Recorder { return &Recorder{writers: map[io.Writer]struct{}{}} }
@@ -93,8 +106,10 @@ type Stream struct {
 func (r *Recorder) NewStream(under io.Writer) *Stream {
 	r.mu.Lock()
 	r.writers[under] = struct{}{}
+	s := &Stream{r: r, under: under}
+	r.cur = s
 	r.mu.Unlock()
-	return &Stream{r: r, under: under}
+	return s
 }
 
 func (s *Stream) Write(p []byte) (int, error) {
@@ -113,6 +128,9 @@ func (s *Stream) Flushed() {
 func (s *Stream) Closed() {
 	s.r.mu.Lock()
 	s.r.C = append(s.r.C, s.n)
+	if s.r.cur == s {
+		s.r.cur = nil
+	}
 	s.r.mu.Unlock()
 	s.n = 0
 }
@@ -198,14 +216,18 @@ type runner struct {
 	fail func(sig, what string)
 	// set when an index failure (offset / chunk bytes / Open) was seen
 	indexBad bool
+	// findings: this is the separate stream of the candidate findings; their signatures are raised
+	// only there, so that the main stream stays silent on the unchanged tree and every OTHER failure or
+	// model mismatch in it is reported.
+	findings bool
 }
 
 // RunCase runs one case on the real code, evaluates the property oracle and emits the
 // correspondence lines.  maxCheck bounds the payload bytes sent to the proved checker.
-func RunCase(out *verifutil.Out, t *Target, c *Case, maxCheck int) {
+func RunCase(out *verifutil.Out, t *Target, c *Case, maxCheck int, findings bool) {
 	out.Comment(fmt.Sprintf("case %s fmt=%s mode=%s chunk=%d min=%d level=%d workers=%d prio=%d incomp=%q calls=%d",
 		c.Label, t.Fmt, c.Mode, c.Chunk, c.MinChunk, c.Level, c.Workers, len(c.Prio), c.InComp, len(c.Calls)))
-	rn := &runner{out: out, t: t, c: c}
+	rn := &runner{out: out, t: t, c: c, findings: findings}
 	rn.fail = func(sig, what string) {
 		if c.Finding && (sig == "offset-not-member-boundary" || sig == "chunk-bytes-mismatch" || sig == "chunk-out-of-member" ||
 			sig == "open-failed" || sig == "open-read-mismatch" || sig == "chunk-digest-mismatch" || sig == "verifytoc-failed") {
@@ -399,7 +421,10 @@ func (rn *runner) run(maxCheck int) {
 	if un, err := t.Unpack(blob, res.ExtTOC); err != nil {
 		if p.NData == 0 {
 			// candidate finding: a blob without any data member (Writer, nothing appended) cannot be unpacked
-			rn.fail("unpack-empty-layer", err.Error())
+			out.Count("candidate-unpack-empty-layer")
+			if rn.findings {
+				rn.fail("unpack-empty-layer", err.Error())
+			}
 		} else {
 			rn.fail("unpack-failed", err.Error())
 		}
@@ -440,7 +465,10 @@ func (rn *runner) run(maxCheck int) {
 			}
 		}
 		if shared && c.MinChunk > 0 {
-			rn.fail(SigVerifyShared, "VerifyTOC: "+verr.Error())
+			out.Count("candidate-" + SigVerifyShared)
+			if rn.findings {
+				rn.fail(SigVerifyShared, "VerifyTOC: "+verr.Error())
+			}
 		} else {
 			rn.indexBad = true
 			rn.fail("verifytoc-failed", verr.Error())
@@ -818,15 +846,24 @@ func (rn *runner) checkTOC(p *Parsed, items []TarItem) {
 	}
 }
 
-// RunAll: the hand-written scenarios, then n generated cases.
+// RunAll: the hand-written scenarios, then n generated cases.  VERIF_C03_STREAM=findings selects the
+// separate stream of the candidate findings (MinChunkSize > 0 with a second AppendTar call; VerifyTOC
+// on blobs whose entries share an Offset; Unpack of a blob without data members).
 func RunAll(out *verifutil.Out, t *Target, n, maxCheck int) {
-	r := verifutil.NewRand(verifutil.Seed()*7919 + uint64(len(t.Fmt)) + uint64(t.Fmt[0]))
+	findings := os.Getenv("VERIF_C03_STREAM") == "findings"
+	r := verifutil.NewRand(verifutil.Seed()*7919 + uint64(t.Fmt[0]))
+	if findings {
+		r = verifutil.NewRand(verifutil.Seed()*104729 + uint64(t.Fmt[0]))
+	}
 	for _, c := range Scenarios(t) {
 		c := c
-		RunCase(out, t, &c, maxCheck)
+		if c.Finding != findings {
+			continue
+		}
+		RunCase(out, t, &c, maxCheck, findings)
 	}
 	for i := 0; i < n; i++ {
-		c := Generate(r, t, i)
-		RunCase(out, t, &c, maxCheck)
+		c := Generate(r, t, i, findings)
+		RunCase(out, t, &c, maxCheck, findings)
 	}
 }
